@@ -36,8 +36,8 @@ from harness import wire            # noqa: E402
 
 
 # The wall-clock watchdog is only a last resort behind the deterministic step cap; on a loaded machine it is
-# stretched so that scheduling delays are never mistaken for a hang (VERIF_WALL_SCALE, default 6).
-WALL_SCALE = float(os.environ.get("VERIF_WALL_SCALE", "6"))
+# stretched so that scheduling delays are never mistaken for a hang (VERIF_WALL_SCALE, default 3).
+WALL_SCALE = float(os.environ.get("VERIF_WALL_SCALE", "3"))
 
 
 class HarnessHang(BaseException):
